@@ -87,13 +87,13 @@ def _pre_merge(B, n0, n1, n2, n3, k0, k1, k2, k3):
             return False
     if not B["FOUR"] and not (n1 == 0 and k1 == 0):
         return False
-    if B["FOUR"] and not (n1 in (0, 1, 3) and k1 in (0, 1, 3, 4, 5)):
-        return False        # second entry of the first dict: three names, five kinds (keeps a shard near 25 000 paths)
+    if B["FOUR"] and not (n1 in (0, 1, 3) and k1 in (0, 3, 5)):
+        return False        # second entry of the first dict: three names, three kinds (keeps a shard near 10 000 paths)
     return True
 
 
 @harness("C15", pre=_pre_merge,
-         bounds={"quick": {"K": 4, "FOUR": False}, "thorough": {"K": 6, "FOUR": True}},
+         bounds={"quick": {"K": 4, "FOUR": False}, "thorough": {"K": 5, "FOUR": True}},
          shard=lambda B: [{"n0": a, "n2": b} for a in range(5) for b in range(5)],
          sel=["n0..n3: raw names from {x, x_, x__, a_b, a-b} for two entries of the first dict, one of the second dict, one keyword "
               "(quick: the second entry of the first dict is fixed)", "k0..k3: value kind None/True/False/int/str/HTML()/float"],
